@@ -524,7 +524,7 @@ func main() {
 	dw := bufio.NewWriter(df)
 	cf, _ := os.Create(out)
 	cw := bufio.NewWriter(cf)
-	evals, nontrivial, loadFailed, reloadDone, rebuildDone, netFiles, histories := 0, 0, 0, 0, 0, 0, 0
+	evals, nontrivial, loadFailed, reloadDone, rebuildDone, netFiles, histories, interleaves := 0, 0, 0, 0, 0, 0, 0, 0
 	scratch := os.Getenv("VERIF_SCRATCH")
 	if scratch == "" {
 		scratch = filepath.Dir(out)
@@ -533,7 +533,7 @@ func main() {
 	var samples []string
 	for i := 0; i < n; i++ {
 		r := &rng{s: seed*7919 + uint64(i)}
-		opts := genOpts{Ties: i%5 != 4, MaxDepth: 1 + i%3, Collide: i%2 == 0}
+		opts := genOpts{Ties: i%5 != 4, MaxDepth: 1 + i%3, Collide: i%2 == 0, CaseTwin: i%3 != 2, Clones: i%4 == 1}
 		if i%3 == 1 { // 1..9 buses for ExportNetwork
 			opts.Buses = 1 + (i/3)%9
 		}
@@ -633,6 +633,14 @@ func main() {
 				fail(s, size, i, d)
 			}
 		}
+		// F: formats interleaved on one model: an export must not change a later export of another format
+		if s, d, cnt := checkInterleave(sp, idTies); true {
+			evals += cnt
+			interleaves += cnt
+			if s != "" {
+				fail(s, size, i, d)
+			}
+		}
 		// E: histories with reads interleaved
 		hr := checkHistory(sp, seed^uint64(i*977+3), idTies)
 		evals += hr.compared
@@ -674,8 +682,8 @@ func main() {
 	cw.Flush()
 	cf.Close()
 	sf, _ := os.Create(out + ".summary")
-	fmt.Fprintf(sf, "cases %d\nevaluations %d\nnontrivial %d\ndistinct %d\nloadfailed %d\nreloads %d\nrebuilds %d\ngomaxprocs %d\nreps %d\nnetworkfiles %d\nhistories %d\n",
-		n, evals, nontrivial, len(distinct), loadFailed, reloadDone, rebuildDone, envProcs, reps, netFiles, histories)
+	fmt.Fprintf(sf, "cases %d\nevaluations %d\nnontrivial %d\ndistinct %d\nloadfailed %d\nreloads %d\nrebuilds %d\ngomaxprocs %d\nreps %d\nnetworkfiles %d\nhistories %d\ninterleaves %d\n",
+		n, evals, nontrivial, len(distinct), loadFailed, reloadDone, rebuildDone, envProcs, reps, netFiles, histories, interleaves)
 	keys := make([]string, 0, len(kinds))
 	for k := range kinds {
 		keys = append(keys, k)
